@@ -6,7 +6,7 @@ from . import common, integrate_core as IC, C03
 F = IC.F
 ASSUME_EVENTS = [
     "event functions g_k(t, y) are uninterpreted (any scale, any dependence); the dense solution is a list of pieces with uninterpreted values piece_value(id, t)",
-    "integrate() with events is verified with dense output off (step interpolants pruned to the last two) in both time directions; dense output kept + events: bounded native family only",
+    "integrate() with events is verified with dense output off (step interpolants pruned to the last two) in both time directions, and with dense output kept (one piece per recorded step) for the configurations listed in the job list; the remaining dense configurations are in the thorough tier",
     "'within tolerance of a true root of g along the exact trajectory' compares with the exact ODE solution: numerical analysis, not a contract on code (bounded native family against closed-form solutions only)",
     "the recursive integrate(root) at a terminal event is replaced by integrate's own contract (proved in this run for events None, no callbacks)",
     "one DenseOutput object serves runs in one time direction only (a backward call after a forward one on the same system is outside the contract)",
@@ -47,14 +47,14 @@ def finish(R, reg, native_props, tier, native_name):
 
 
 def configs(tier, which):
-    """(n, terminals, direction) configurations of the integrate-with-events harness per property and tier."""
+    """(n, terminals, direction, dense) configurations of the integrate-with-events harness per property and tier."""
     out = []
     if which == "nonterminal":
-        out = [(1, (False,), 1), (1, (False,), -1), (2, (False, False), 1)]
+        out = [(1, (False,), 1, False), (1, (False,), -1, False), (2, (False, False), 1, False)]
         if tier == "thorough":
-            out += [(2, (False, False), -1)]
+            out += [(2, (False, False), -1, False), (1, (False,), 1, True), (1, (False,), -1, True)]
     elif which == "terminal":
-        out = [(1, (True,), 1), (1, (True,), -1), (2, (False, True), 1)]
+        out = [(1, (True,), 1, False), (1, (True,), -1, False), (1, (True,), 1, True)]
         if tier == "thorough":
-            out += [(2, (True, True), 1), (2, (False, True), -1), (2, (True, False), -1)]
+            out += [(2, (False, True), 1, False), (2, (True, True), 1, False), (2, (False, True), -1, False), (2, (True, False), -1, False), (1, (True,), -1, True), (2, (False, True), 1, True)]
     return out
